@@ -710,10 +710,7 @@ func (d Decimal) Uint32() (uint32, bool) {
 		return math.MaxUint32, false
 	}
 
-	if d.Signbit() {
-		return 0, false
-	}
-
+	neg := d.Signbit()
 	sig, exp := d.decompose()
 	exp -= exponentBias
 
@@ -734,6 +731,11 @@ func (d Decimal) Uint32() (uint32, bool) {
 	for sig[1] == 0 && exp > 0 {
 		sig = sig.mul64(10)
 		exp--
+	}
+
+	if neg {
+		// only a value that truncates to zero fits an unsigned type
+		return 0, sig[0]|sig[1] == 0
 	}
 
 	if sig[1] != 0 || exp != 0 {
@@ -765,10 +767,7 @@ func (d Decimal) Uint64() (uint64, bool) {
 		return math.MaxUint64, false
 	}
 
-	if d.Signbit() {
-		return 0, false
-	}
-
+	neg := d.Signbit()
 	sig, exp := d.decompose()
 	exp -= exponentBias
 
@@ -789,6 +788,11 @@ func (d Decimal) Uint64() (uint64, bool) {
 	for sig[1] == 0 && exp > 0 {
 		sig = sig.mul64(10)
 		exp--
+	}
+
+	if neg {
+		// only a value that truncates to zero fits an unsigned type
+		return 0, sig[0]|sig[1] == 0
 	}
 
 	if sig[1] != 0 || exp != 0 {
